@@ -10,6 +10,8 @@ SPEC = {
         "AM.Config.print_load_stable_partial", "AM.Config.print_load_loses_empty_group_by",
         # F13: the deprecated regular-expression maps print and load back, the empty expression included (repaired printer; the pinned one refuted)
         "AM.Config.regexp_print_load", "AM.Config.regexp_load_compiled", "AM.Config.regexp_print_load_old_fails", "AM.Config.regexp_print_old_agrees",
+        # F14: no integration entry is left null by the loader, so applying a loaded configuration never dereferences nil (pinned loader refuted)
+        "AM.Config.apply_total_after_load", "AM.Config.fillNulls_keeps_given", "AM.Config.null_entry_kills_apply_old",
         "AM.Config.firstErr_none_all", "AM.Config.receiversErr_none", "AM.Config.nodeErr_none",
     ],
     "engines": [
